@@ -161,10 +161,20 @@ def l_run_real(case):
         obj = l_construct(case["ctor"])
         recs.append({"pub": l_public(obj), "res": "ok"})
         for call in case["calls"]:
+            before = snap_dict(obj) if call[0] in ("tr", "read") else None
             st, v, _ = common.call(l_apply, obj, call)
+            impure = before is not None and not deep_eq(before, snap_dict(obj))
             if call[0] == "read":
+                if impure:
+                    recs.append({"pub": l_public(obj), "res": "ok", "impure": "repr/get_params"})
+                    break
                 continue
             recs.append({"pub": l_public(obj), "res": ("err:" + v) if st == "err" else ("ok" if v is None else v)})
+            if impure:      # [T] purity of transform, on every transform call of every history
+                recs[-1]["impure"] = "transform changed the object: %r -> %r" % (
+                    {k: before[k] for k in before if not deep_eq(before[k], obj.__dict__.get(k))},
+                    {k: obj.__dict__.get(k) for k in before if not deep_eq(before[k], obj.__dict__.get(k))})
+                break
     return recs
 
 
@@ -255,15 +265,16 @@ L_CORPUS = [
 ]
 
 
-def l_laws(ctx, case):
-    """[T] the laws on the real landscaper, from the state the history reaches.  Returns (ok, text)"""
+def l_laws(ctx, case, X0=None):
+    """[T] the laws on the real landscaper, from the state the history reaches, for fresh data X (or the recorded X0).
+    Returns (ok, text, X)"""
     g = LGen(ctx)
     g.mode = ctx.rng.choice(["lattice", "half", "dyadic", "dec", "unif"])
     with np.errstate(all="ignore"):
         obj = l_construct(case["ctor"])
         for call in case["calls"]:
             common.call(l_apply, obj, call)
-        X = g.X(bad=0.0)
+        X = g.X(bad=0.0) if X0 is None else X0
         while len(X) <= obj.hom_deg or obj.hom_deg < 0:
             obj.hom_deg = ctx.rng.randint(0, len(X) - 1)
         # what the user fixed: the last assignment of the history (constructor counts)
@@ -281,24 +292,24 @@ def l_laws(ctx, case):
                 user["stop"] if user["stop"] is not None else float(d[:, 1].max()))
         if (float(o1.start), float(o1.stop)) != want:
             return False, "after the history, fit(X) gives (start, stop) = %r; user-fixed values / data of this fit give %r" % (
-                (float(o1.start), float(o1.stop)), want)
+                (float(o1.start), float(o1.stop)), want), X
         # fit;transform == fit_transform
         before = snap_dict(o1)
         r1 = common.call(o1.transform, l_dgms(X))
         r2 = common.call(o2.fit_transform, l_dgms(X))
         if r1[0] != r2[0] or (r1[0] == "ok" and not out_eq(r1[1], r2[1])) or (r1[0] == "err" and r1[1] != r2[1]):
-            return False, "fit(X).transform(X) and fit_transform(X) differ"
+            return False, "fit(X).transform(X) and fit_transform(X) differ", X
         if l_public(o1) != l_public(o2):
-            return False, "public attributes after fit;transform %r and after fit_transform %r differ" % (l_public(o1), l_public(o2))
+            return False, "public attributes after fit;transform %r and after fit_transform %r differ" % (l_public(o1), l_public(o2)), X
         # transform is pure and repeatable
         if not deep_eq(before, snap_dict(o1)):
-            return False, "transform changed the fitted state: %r -> %r" % (before, snap_dict(o1))
+            return False, "transform changed the fitted state: %r -> %r" % (before, snap_dict(o1)), X
         r3 = common.call(o1.transform, l_dgms(X))
         if r1[0] != r3[0] or (r1[0] == "ok" and not out_eq(r1[1], r3[1])):
-            return False, "two transform calls on the same input differ"
+            return False, "two transform calls on the same input differ", X
         if not deep_eq(before, snap_dict(o1)):
-            return False, "the second transform changed the fitted state"
-    return True, {"X": X, "user": user}
+            return False, "the second transform changed the fitted state", X
+    return True, "", X
 
 
 # ============================================================================= imager
@@ -375,13 +386,20 @@ def i_run_real(case):
         obj = res[1]
         recs.append({"pub": i_public(obj), "out": None})
         for call in case["calls"]:
+            before = snap_dict(obj) if call[0] in ("tr", "read") else None
             st, v, _ = common.call(i_apply, obj, call)
-            if call[0] == "read":
+            impure = before is not None and not deep_eq(before, snap_dict(obj))
+            if call[0] == "read" and not impure:
                 continue
             if st == "err":
                 recs.append({"err": v})
                 break
             recs.append({"pub": i_public(obj), "out": v, "ref": copy.deepcopy(obj) if v is not None else None})
+            if impure:      # [T] purity of transform, on every transform call of every history
+                recs[-1]["impure"] = "%s changed the object (attributes %r)" % (
+                    "transform" if call[0] == "tr" else "reading attributes",
+                    [k for k in before if not deep_eq(before[k], obj.__dict__.get(k))])
+                break
     return recs
 
 
@@ -602,6 +620,21 @@ def run(ctx):
                 print(ln, flush=True)
 
 
+def report_impure(ctx, which, cases, recs_all):
+    """a transform (or a read) that changed the object is a failing input of the property; True = stop"""
+    for case, recs in zip(cases, recs_all):
+        bad = recs and recs[-1].get("impure")
+        ctx.test(which + "_transform_pure_in_histories", not bad)
+        if bad:
+            calls = [c for c in case["calls"]]
+            ctx.violation("%s: %s" % ("PersistenceLandscaper" if which == "landscaper" else "PersistenceImager", bad),
+                          {"transformer": which, "history": case, "impure": True}, found_input=True,
+                          reproducer=l_reproducer(case) if which == "landscaper" else None)
+            if len(ctx.violations) >= MAXV:
+                return True
+    return False
+
+
 def _run(ctx):
     common.import_persim()
     ctx.extra["anchors_digest"] = {
@@ -624,6 +657,8 @@ def _run(ctx):
         ctx.count("landscaper_histories")
         for c in case["calls"]:
             ctx.count("lcall:" + c[0])
+    if report_impure(ctx, "landscaper", lcases, lrecs):
+        return
     lans = ask([l_line(c) for c in lcases])
     ldis = []
     for case, recs, ans in zip(lcases, lrecs, lans):
@@ -648,6 +683,8 @@ def _run(ctx):
         ctx.count("imager_histories")
         for c in case["calls"]:
             ctx.count("icall:" + c[0] + (":" + c[2] if len(c) > 3 and c[0] in ("fit", "tr", "ft") else ""))
+    if report_impure(ctx, "imager", icases, irecs):
+        return
     ians = ask([i_line(c) for c in icases])
     idis = []
     for case, recs, ans in zip(icases, irecs, ians):
@@ -664,12 +701,12 @@ def _run(ctx):
     for case in law_cases:
         res = common.call(l_laws, ctx, case)
         if res[0] == "err":
-            ok, text = False, "a law raised %s on valid input" % res[1]
+            ok, text, X = False, "a law raised %s on valid input" % res[1], None
         else:
-            ok, text = res[1]
+            ok, text, X = res[1]
         ctx.test("landscaper_laws", ok)
         if not ok:
-            ctx.violation("PersistenceLandscaper: " + str(text), {"transformer": "landscaper", "history": case},
+            ctx.violation("PersistenceLandscaper: " + str(text), {"transformer": "landscaper", "history": case, "X": X},
                           found_input=True, reproducer=l_reproducer(case))
             if len(ctx.violations) >= MAXV:
                 return
@@ -718,7 +755,10 @@ def replay(ctx, rep):
         recs = l_run_real(case)
         for k, r in enumerate(recs):
             print("call %d: (start, stop, num_steps, flatten, hom_deg) = %r -> %s" % (k, r["pub"], r["res"] if isinstance(r["res"], str) else "array"))
-        ok, text = l_laws(ctx, case)
+        if recs and recs[-1].get("impure"):
+            print("law fails:", recs[-1]["impure"])
+            return False
+        ok, text, _ = l_laws(ctx, case, c.get("X"))
         if not ok:
             print("law fails:", text)
             return False
@@ -741,8 +781,8 @@ def replay(ctx, rep):
     case = c["history"]
     recs = i_run_real(case)
     for k, r in enumerate(recs):
-        print("call %d:" % k, r.get("pub", r.get("err")))
-    return True
+        print("call %d:" % k, r.get("pub", r.get("err")), r.get("impure", ""))
+    return not (recs and recs[-1].get("impure"))
 
 
 def i_law_replay(case):
